@@ -143,7 +143,7 @@ func (a *attrs32) raw(x uint32) {
 		a.violate("requested-transport", "canonical-rejected", x, err.Error())
 	}
 
-	// REQUESTED-ADDRESS-FAMILY: family = first byte (0x01 / 0x02 defined), RFFU ignored.
+	// REQUESTED-ADDRESS-FAMILY: family = first byte (0x01 / 0x02 defined, every other code refused), RFFU ignored.
 	a.cur.Attr = "requested-address-family"
 	binary.BigEndian.PutUint32(a.fam.val, x)
 	f := proto.RequestedAddressFamily(^b0)
@@ -159,6 +159,8 @@ func (a *attrs32) raw(x uint32) {
 		a.violate("requested-address-family", "different-value", x, fmt.Sprintf("decoded %d, bytes denote %d", f, b0))
 	} else if err != nil && fc < 2 && !rffu3 {
 		a.violate("requested-address-family", "canonical-rejected", x, err.Error())
+	} else if err == nil && fc == 2 {
+		a.violate("requested-address-family", "reserved-code-accepted", x, fmt.Sprintf("family code %#x is no value of the attribute", b0))
 	}
 
 	// CONNECTION-ID: 32-bit id.
